@@ -8,6 +8,7 @@ use s2n_quic_core::{
     frame::{Frame, FrameMut},
     inet::SocketAddress,
     packet::{number::PacketNumberSpace, ProtectedPacket},
+    transport::parameters::{ClientTransportParameters, ServerTransportParameters},
     stream::StreamType,
     varint::VarInt,
 };
@@ -325,6 +326,41 @@ fn pn(input: &[V]) -> Vec<V> {
     }
 }
 
+/// decode a transport parameter block as the TLS extension payload of a client (0) or server (1):
+/// 1 = accepted (and nothing left over), 0 = decode error
+fn tp_decode(side: V, bytes: &[u8]) -> V {
+    let buf = DecoderBuffer::new(bytes);
+    let r = if side == 0 {
+        buf.decode::<ClientTransportParameters>().map(|(_, rest)| rest.is_empty())
+    } else {
+        buf.decode::<ServerTransportParameters>().map(|(_, rest)| rest.is_empty())
+    };
+    match r {
+        Ok(true) => 1,
+        Ok(false) => -1,
+        Err(_) => 0,
+    }
+}
+
+/// case = side :: block bytes (unknown ids only: pure grammar)
+fn tparams(input: &[V]) -> Vec<V> {
+    let bytes: Vec<u8> = input.iter().skip(1).map(|v| *v as u8).collect();
+    vec![tp_decode(input.first().copied().unwrap_or(0) & 1, &bytes)]
+}
+
+/// case = side :: arbitrary bytes; only totality is judged (a panic is the violation)
+fn tparams_total(input: &[V]) -> Vec<V> {
+    let bytes: Vec<u8> = input.iter().skip(1).map(|v| *v as u8).collect();
+    vec![tp_decode(input.first().copied().unwrap_or(0) & 1, &bytes)]
+}
+
 fn main() {
-    main_with(&[("varint", varint), ("frames", frames), ("packets", packets), ("pn", pn)]);
+    main_with(&[
+        ("varint", varint),
+        ("frames", frames),
+        ("packets", packets),
+        ("pn", pn),
+        ("tparams", tparams),
+        ("tparams_total", tparams_total),
+    ]);
 }
